@@ -110,9 +110,9 @@ func (c *Conn) Read(p []byte) (int, error) {
 	if !c.rdl.IsZero() {
 		dl = c.rdl.Sub(epoch)
 	}
-	Block("net.Conn.Read", "read "+c.Name, func() bool {
+	BlockDL("net.Conn.Read", "read "+c.Name, func() bool {
 		return len(c.in) > 0 || c.peerEOF || c.peerReset || c.srvClosed || s.Dead || (dl >= 0 && s.now >= dl)
-	})
+	}, dl)
 	if c.srvClosed {
 		return 0, &net.OpError{Op: "read", Net: "tcp", Err: errClosed}
 	}
@@ -144,9 +144,9 @@ func (c *Conn) Write(p []byte) (int, error) {
 	if !c.wdl.IsZero() {
 		dl = c.wdl.Sub(epoch)
 	}
-	Block("net.Conn.Write", "write "+c.Name+" (peer not reading)", func() bool {
+	BlockDL("net.Conn.Write", "write "+c.Name+" (peer not reading)", func() bool {
 		return !c.stalled || c.cut || c.srvClosed || s.Dead || (dl >= 0 && s.now >= dl)
-	})
+	}, dl)
 	if c.srvClosed {
 		return 0, &net.OpError{Op: "write", Net: "tcp", Err: errClosed}
 	}
@@ -197,20 +197,10 @@ func (c *Conn) SetDeadline(t time.Time) error {
 }
 func (c *Conn) SetReadDeadline(t time.Time) error {
 	c.rdl = t
-	if !t.IsZero() {
-		if d := t.Sub(c.s.Now()); d > 0 {
-			c.s.AfterFunc(d, func() {})
-		}
-	}
 	return nil
 }
 func (c *Conn) SetWriteDeadline(t time.Time) error {
 	c.wdl = t
-	if !t.IsZero() {
-		if d := t.Sub(c.s.Now()); d > 0 {
-			c.s.AfterFunc(d, func() {})
-		}
-	}
 	return nil
 }
 
